@@ -376,9 +376,75 @@ def _serve_once(c, port):
     return Out(["server:answered" if answered else "server:silent"], True)
 
 
+# ---------------------------------------------------------------- the manager programs
+
+def program_cases(tier, seed):
+    out = []
+    for plat, mode, filest, switch, change, v1 in itertools.product(
+            PLATFORMS, [BOOT, SIGNER], ["present", "absent"], [None, "-X", "--changepin"],
+            ["accept", "refuse"], [False, True]):
+        if plat == "TCP" and (filest != "present" or switch or change != "accept"):
+            continue
+        if v1 and (change != "accept" or switch == "--changepin"):
+            continue
+        out.append({"platform": plat, "mode": mode, "file": filest, "switch": switch,
+                    "change": change, "v1": v1})
+    return out
+
+
+def run_program(c):
+    """manager_ledger.py / manager_sgx.py / manager_tcp.py started as a user starts them (command
+    line, PIN file, PIN environment variable) against a device that qualifies: they serve
+    exactly when no PIN change was due."""
+    from vlib import managers
+    plat = c["platform"]
+    needs_change = plat != "TCP" and (c["file"] == "absent" or bool(c["switch"]))
+    cc = {"mode": c["mode"], "onboarded": True, "ui_version": (5, 4, 1),
+          "signer_version": (5, 4, 1), "retries": 3, "echo_ok": True, "unlock_ok": True,
+          "needs_change": needs_change, "change": c["change"] if needs_change else False,
+          "post_mode": SIGNER, "platform": plat}
+    w, _ = build(cc)
+    pf = os.path.join(tmpdir(), "pin.txt")
+    if os.path.exists(pf):
+        os.unlink(pf)
+    if c["file"] == "present":
+        with open(pf, "wb") as f:
+            f.write(PIN)
+    argv = ["-b", "127.0.0.1", "-p", "0", "-l", os.path.join(tmpdir(), "no-such-logging.cfg")]
+    if plat != "TCP":
+        argv += ["-P", pf]
+        if c["switch"]:
+            argv.append(c["switch"])
+    if c["v1"]:
+        argv.append("--version-one")
+    cond, serves = model(cc)
+    mark = len(w.log)
+    res = managers.run_manager(plat, argv, {"PIN": PIN.decode()}, w, expect_serve=serves)
+    mw.check_sim(w)
+    unlocks, pin_sends, apdus = observe(w)
+    desc = dict(c)
+    if unlocks > 1:
+        raise Violation("unlock-more-than-once", "%r: %d unlock commands" % (desc, unlocks))
+    if (unlocks or pin_sends) and not cond:
+        raise Violation("pin-sent-to-unsafe-device", repr(desc))
+    if res["served"] != serves:
+        raise Violation("program-serves-mismatch:%s" % ("serves" if res["served"] else "stops"),
+                        "%r: the program %s (ended: %s), the statement says serves=%s" % (
+                            desc, "served a client" if res["served"] else "served nobody",
+                            res["end"], serves))
+    changes = [e for e in w.log[mark:] if e[0] == "newpin_rx"]
+    if c["mode"] == BOOT and needs_change and not changes:
+        raise Violation("program-change-due-not-attempted", repr(desc))
+    labels = ["program:" + plat, "program-%s" % ("serves" if res["served"] else "stops")]
+    if c["switch"] and c["file"] == "present" and c["mode"] == BOOT:
+        labels.append("program:forced-change")
+    return Out(labels, True)
+
+
 REQUIRED_LABELS = {t: ["change:%s" % x for x in CHANGES] + ["out:serve", "out:error", "out:interrupt", "platform:Ledger",
                        "platform:SGX", "platform:TCP", "unlocks:0", "unlocks:1", "serves",
-                       "server:answered", "server:silent", "server:restarted", "fault-at-unlock", "fault-out:stop",
+                       "server:answered", "server:silent", "server:restarted", "program:Ledger", "program:SGX",
+                       "program:TCP", "program-serves", "program-stops", "program:forced-change", "fault-at-unlock", "fault-out:stop",
                        "fault-platform:SGX", "fault-platform:Ledger", "echo:hdr-cmd",
                        "echo:hdr-cla", "echo:short", "echo:False", "echo:True"] for t in ("quick", "thorough")}
 
@@ -391,4 +457,7 @@ def stages(tier):
                       budget_s={"quick": 60, "thorough": 120}),
             EnumStage("server", server_cases, run_server,
                       exhaustive={"quick": True, "thorough": True},
-                      budget_s={"quick": 60, "thorough": 60})]
+                      budget_s={"quick": 60, "thorough": 60}),
+            EnumStage("manager-programs", program_cases, run_program,
+                      exhaustive={"quick": True, "thorough": True},
+                      budget_s={"quick": 90, "thorough": 120})]
